@@ -707,7 +707,7 @@ def t3_conc(res, tier, broken):
 
     t0 = time.time()
     vs.campaign(res, broken, tier, "C17", RANKS_SC[0], RANKS_SC[1], ranks_params, validate,
-                sizes={"quick": (30, 4), "thorough": (200, 8), "search": (150, 6)})
+                sizes={"quick": (16, 4), "thorough": (200, 8), "search": (150, 6)})
     res.add_cov(rankconc_wall_s=round(time.time() - t0, 1),
                 rankconc_calls_projected=stats["calls"], rankconc_call_histogram={k[5:]: v for k, v in stats.items() if k.startswith("call_")},
                 rankconc_critical_sections=stats["critical_sections"], rankconc_lock_contended_tas=stats["tas_failed"],
